@@ -141,6 +141,18 @@ func transformerPayloads(rng *hlib.Rand, thorough bool) []payload {
 	for _, n := range []int{65534, 65535, 65536, 131070, 131071} {
 		add(fmt.Sprintf("stored-boundary-%d", n), rng.Bytes(n))
 	}
+	// incompressible stretches (≥ one 64 KiB LZMA2 chunk, stored deflate blocks, bzip2 random blocks) next to
+	// compressible ones, in both orders: the decoders must carry their context across the switch of chunk kind
+	add("random-then-text", append(rng.Bytes(70000+rng.Intn(3000)), textPayload(rng, 40000+rng.Intn(500))...))
+	add("text-then-random", append(textPayload(rng, 30000+rng.Intn(500)), rng.Bytes(70000+rng.Intn(3000))...))
+	add("random-text-random-text", func() []byte {
+		var b []byte
+		for k := 0; k < 2; k++ {
+			b = append(b, rng.Bytes(66000+rng.Intn(2000))...)
+			b = append(b, textPayload(rng, 20000+rng.Intn(500))...)
+		}
+		return b
+	}())
 	add("mixed-50k", mixedPayload(rng, 50000+rng.Intn(3000)))
 	add("mixed-100k", mixedPayload(rng, 100000+rng.Intn(3000)))
 	add("all-bytes", func() []byte {
